@@ -276,6 +276,53 @@ theorem maxpool_gradient_is_transpose (l : Maxpool ℝ) (hl : l.loops = 1) (max 
         ((L.get3D [] max p.1 p.2.1 p.2.2).map (fun q => L.get3D 0 v p.1 q.1 q.2)).sum)).sum :=
   MaxpoolAdjoint.route_adjoint l hl max og v pos ic ih iw hpos
 
+/-! ### the soft-max output layer, end to end -/
+
+/-- the model's soft-max forward on a vector is `softmaxV` -/
+theorem softmax_forward_vec {n : ℕ} (z : Vec n) : Act.forward .softmax (vecT z) = .ok (vecT (softmaxV z)) := by
+  simp only [Act.forward, Act.softmaxFwd, vecT, Tensor.getFlat, softmax_model_eq, Tensor.single, Tensor.reshape,
+    List.length_ofFn]
+
+/-- **soft-max dense output layer under cross-entropy, on the model's own forward / objective /
+    backward**: the forward pass outputs `p = softmax(Wx + b)`, the objective's gradient is `p − t`,
+    and what `Dense::backward` returns for it — `Wᵀ(p − t)`, `(p − t) ⊗ x`, `p − t` — are the gradients
+    of `x ↦ CE(t, softmax(Wx + b))` with respect to the input, the weights and the bias
+    (for a target distribution `t`) -/
+theorem softmax_output_layer_gradients {r c : ℕ} [NeZero r] (l : DenseLayer ℝ) (W : V (Fin r × Fin c)) (b : Vec r)
+    (hl : IsDense l .softmax W b) (hr : 0 < r) (hc : 0 < c) (x : Vec c) (t : Vec r) (ht : ∑ i, t i = 1) :
+    l.forward (vecT x) = .ok (vecT (densePre W b x), vecT (softmaxV (densePre W b x))) ∧
+    (∀ len i, Obj.grad .ce len (t i) (softmaxV (densePre W b x) i) = softmaxV (densePre W b x) i - t i) ∧
+    l.backward (vecT (fun i => softmaxV (densePre W b x) i - t i)) (vecT x) (vecT (densePre W b x)) =
+      .ok (vecT (inputGrad W (fun i => softmaxV (densePre W b x) i - t i)),
+           matT (weightGrad (fun i => softmaxV (densePre W b x) i - t i) x),
+           some (vecT (fun i => softmaxV (densePre W b x) i - t i))) ∧
+    IsGrad (fun x' => ceSoftmax t (densePre W b x')) x (inputGrad W (fun i => softmaxV (densePre W b x) i - t i)) ∧
+    IsGrad (fun W' => ceSoftmax t (densePre W' b x)) W (weightGrad (fun i => softmaxV (densePre W b x) i - t i) x) ∧
+    IsGrad (fun b' => ceSoftmax t (densePre W b' x)) b (fun i => softmaxV (densePre W b x) i - t i) := by
+  have hce := softmax_ce_gradient t (densePre W b x) ht
+  have hid : ∀ z : ℝ, HasDerivAt (fun y : ℝ => y) ((fun _ : ℝ => (1 : ℝ)) z) z := fun z => hasDerivAt_id z
+  have hdelta : delta (fun _ : ℝ => (1 : ℝ)) (densePre W b x) (fun i => softmaxV (densePre W b x) i - t i) =
+      (fun i => softmaxV (densePre W b x) i - t i) := by
+    funext i; simp [delta]
+  refine ⟨?_, fun _ _ => rfl, ?_, ?_, ?_, ?_⟩
+  · unfold DenseLayer.forward
+    rw [hl.weights, dot_mat_vec, hl.bias]
+    have hadd : (vecT (fun i => ∑ j, W (i, j) * x j)).add (vecT b) = .ok (vecT (densePre W b x)) := by
+      simp only [Tensor.add, Tensor.zipOp, vecT, ne_eq, not_true_eq_false, ↓reduceIte, zip1_ofFn]
+      rfl
+    simp only [hadd, hl.act, softmax_forward_vec, finish, hl.eval]
+    rfl
+  · exact softmax_dense_passes_gradient l W b hl hr hc x _ _ rfl
+  · have := IsGrad.comp_vjp (dense_vjp_input (fun y => y) (fun _ => 1) W b x (fun i => hid _)) hce
+    rw [hdelta] at this
+    exact this
+  · have := IsGrad.comp_vjp (dense_vjp_weights (fun y => y) (fun _ => 1) W b x (fun i => hid _)) hce
+    rw [hdelta] at this
+    exact this
+  · have := IsGrad.comp_vjp (dense_vjp_bias (fun y => y) (fun _ => 1) W b x (fun i => hid _)) hce
+    rw [hdelta] at this
+    exact this
+
 /-! non-vacuity: a 2×2 sigmoid layer satisfies every hypothesis -/
 example : ∀ i : Fin 2, NoKink .sigmoid (densePre (fun _ : Fin 2 × Fin 2 => (1 : ℝ)) (fun _ => 0) (fun _ => 1) i) := by
   intro i h; rcases h with h | h <;> cases h
